@@ -10,7 +10,9 @@ A *case* is a JSON dict:
             A group (a task that has sub-tasks) is directly followed by its sub-tasks and its task_dep ends with them
             (that is what doit's loader produces); `task_dep` is the list *after* loading.
   pos, defaults (None | [str]), cleandep, cleanall, dryrun, forget : the command line / DOIT_CONFIG
-  files, dirs : the target tree before `clean` (relative paths; every parent directory of an entry is in dirs)
+  files, dirs : the target tree before `clean` (relative paths; every parent directory of an entry is in dirs;
+                `../x` lies outside the tree)
+  links : [[path, destination as written in the link]] symbolic links created after files and dirs
   backend : json | dbm | sqlite3;   ran : labels given to `doit run` beforehand (so that there is state to forget)
 """
 import contextlib
@@ -243,21 +245,41 @@ def build_namespace(case, log, out, cmdlog='/dev/null'):
 
 
 def make_world(case):
+    """cwd is <root>/w; paths starting with `../` lie outside the target tree (still inside the scratch root)"""
     for d in sorted(case['dirs']):
         os.makedirs(d, exist_ok=True)
     for f in case['files']:
+        if os.path.dirname(f):
+            os.makedirs(os.path.dirname(f), exist_ok=True)
         with open(f, 'w') as fh:
             fh.write('x')
+    for link, dest in case.get('links', []):
+        if os.path.dirname(link):
+            os.makedirs(os.path.dirname(link), exist_ok=True)
+        os.symlink(dest, link)
 
 
 def snapshot():
-    files, dirs = [], []
-    for root, ds, fs in os.walk('.'):
-        for d in ds:
-            dirs.append(os.path.relpath(os.path.join(root, d), '.'))
-        for f in fs:
-            files.append(os.path.relpath(os.path.join(root, f), '.'))
-    return sorted(files), sorted(dirs)
+    """(files, dirs, links) of the whole scratch root, paths relative to the cwd (<root>/w); links are pairs
+    (path of the link, resolved destination); the DB files and the shell log at the root are not part of it"""
+    files, dirs, links = [], [], []
+    here = os.path.realpath('.')
+    top = os.path.dirname(here)
+    for root, ds, fs in os.walk(top):
+        for name in list(ds) + list(fs):
+            full = os.path.join(root, name)
+            rel = os.path.relpath(full, here)
+            if root == top and (name.startswith('db.') or name == 'cmdlog'):
+                continue
+            if rel == '.':
+                continue
+            if os.path.islink(full):
+                links.append([rel, os.path.relpath(os.path.realpath(full), here)])
+            elif name in ds:
+                dirs.append(rel)
+            else:
+                files.append(rel)
+    return sorted(files), sorted(dirs), sorted(links)
 
 
 def read_db(backend, path, labels):
@@ -352,7 +374,7 @@ def run_impl(case):
             code, o, e = doit_main(ns, ['run'] + list(case['ran']))
             obs['run_code'] = code
         make_world(case)
-        obs['files0'], obs['dirs0'] = snapshot()
+        obs['files0'], obs['dirs0'], obs['links0'] = snapshot()
         db0 = read_db(case['backend'], dbpath, labels)
         obs['db0'] = sorted(db0)
         # 2. clean
@@ -424,7 +446,7 @@ def run_impl(case):
             obs['outcome'] = 'key-error'
         else:
             obs['outcome'] = 'error:%s' % (etext.strip().split('\n')[-1][:120] if etext.strip() else code)
-        obs['files'], obs['dirs'] = snapshot()
+        obs['files'], obs['dirs'], obs['links'] = snapshot()
         db1 = read_db(case['backend'], dbpath, labels)
         obs['db'] = sorted(db1)
         obs['db_survivors_intact'] = all(db1[k] == db0.get(k) for k in db1)
@@ -453,9 +475,11 @@ def to_req(case, obs=None):
            'cleandep': bool(case.get('cleandep')), 'cleanall': bool(case.get('cleanall')),
            'dryrun': bool(case.get('dryrun')), 'forget': bool(case.get('forget')),
            'files': (obs or {}).get('files0', case['files']), 'dirs': (obs or {}).get('dirs0', case['dirs']),
+           'links': (obs or {}).get('links0', []),
            'db': (obs or {}).get('db0', [])}
     if obs is not None and obs.get('outcome') == 'ok':
-        req['obs'] = {'order': obs['order'], 'files': obs['files'], 'dirs': obs['dirs'], 'db': obs['db']}
+        req['obs'] = {'order': obs['order'], 'files': obs['files'], 'dirs': obs['dirs'], 'db': obs['db'],
+                      'links': obs.get('links', [])}
     return req
 
 
@@ -471,6 +495,8 @@ def compare(case, obs, ans):
         return ['outcome: impl %s model %s' % (obs.get('outcome'), ans.get('outcome'))]
     if ans.get('outcome') != 'ok':
         return diffs
+    if ans.get('crashed'):
+        return ['the model says os.rmdir is called on a symbolic link (the command dies there); not compared further']
     if ans.get('oof'):
         diffs.append('model ran out of fuel')
     m_events = [e for e in ans['events'] if e[0] != 'cmd']
@@ -479,6 +505,8 @@ def compare(case, obs, ans):
         diffs.append('events: impl %s model %s' % (obs['events'], m_events))
     if obs.get('cmds', []) != m_cmds:
         diffs.append('shell clean actions executed: impl %s model %s' % (obs.get('cmds'), m_cmds))
+    if sorted(l[0] for l in obs.get('links', [])) != sorted(ans.get('links', [])):
+        diffs.append('links: impl %s model %s' % (obs.get('links'), ans.get('links')))
     for k in ('files', 'dirs', 'db'):
         if sorted(obs[k]) != sorted(ans[k]):
             diffs.append('%s: impl %s model %s' % (k, obs[k], ans[k]))
@@ -493,6 +521,7 @@ def monitor(case, obs, ans):
     if obs.get('outcome') != 'ok':
         # the property speaks about successful clean invocations; a refusal must at least leave everything alone
         if obs.get('files0') is not None and (obs.get('files') != obs.get('files0') or obs.get('dirs') != obs.get('dirs0')
+                                              or obs.get('links') != obs.get('links0')
                                               or obs.get('db') != obs.get('db0') or obs.get('events')):
             failed.append('a refused invocation changed files/DB or ran clean behaviour')
         return failed
